@@ -378,8 +378,16 @@ def gen_eo_script(r, length, n=None):
     nvis = 2
     boxes = [(0, 1)]
     cur = (lo, hi)
+    ints = set()           # indices of integer-typed arrays (poked with integer values only)
+    lens = {0: n, 1: n}
     for _ in range(length):
         u = r.random()
+        if u < 0.08:
+            # the caller overwrites one of ITS arrays in place (bounds it passed, an argument, a result it was handed)
+            k = r.randrange(nvis)
+            vals = [float(r.randint(-3, 3)) if k in ints else round(r.uniform(-50, 50), 3) for _ in range(lens.get(k, n))]
+            lines.append(f"eo.poke {k} " + fs2h(vals))
+            continue
         if u < 0.4:
             x = r.choice([0.0, 1.0, 0.5]) if r.random() < 0.15 else r.random()
             lines.append(f"eo.image {f2h(x)}"); nvis += 1
@@ -392,6 +400,7 @@ def gen_eo_script(r, length, n=None):
                 # an integer-typed argument array (Python lists of ints / int ndarrays are legal points)
                 y = [float(r.randint(math.ceil(l), math.floor(h))) for l, h in zip(*cur)]
                 lines.append("eo.arri " + fs2h(y)); nvis += 1
+                ints.add(nvis - 1)
                 lines.append(f"{r.choice(['eo.inverse', 'eo.preimages'])} {nvis - 1}")
             else:
                 y = [l + r.random() * (h - l) for l, h in zip(*cur)]
